@@ -49,12 +49,20 @@ Definition res_eqb := outcome_eqb scanned_eqb serr_eqb.
 
 Inductive case :=
 | Scan (c : params) (prior : option pmeta) (keys : list key) (nfs : nfset) (b : cblock)
-       (o : outcome scanned serr) (alts : list (N * outcome scanned serr)).
+       (o : outcome scanned serr) (alts : list (N * outcome scanned serr))
+(** [Nullifiers::update_with] between two consecutive blocks of a chain: the tracked set before,
+    the wallet transactions of the scanned block, the tracked set observed afterwards *)
+| Upd (nfs : nfset) (txs : list wtx) (after : nfset).
+
+Definition nfl_eqb := list_eqb (pair_eqb N.eqb N.eqb).
+Definition nfset_eqb (a b : nfset) : bool :=
+  nfl_eqb (n_s a) (n_s b) && nfl_eqb (n_o a) (n_o b) && nfl_eqb (n_i a) (n_i b).
 
 (** model = implementation (the inline scan) *)
 Definition run_case (x : case) : bool :=
   match x with
   | Scan c prior keys nfs b o alts => res_eqb (scan_block_truth c prior keys nfs b) o
+  | Upd nfs txs after => nfset_eqb (update_with nfs txs) after
   end.
 
 (** the property on an observed outcome, from Spec.v only *)
@@ -71,6 +79,8 @@ Definition prop_case (x : case) : bool :=
       (* the inline outcome satisfies the specification, and no batched run (any thread count)
          produced anything else *)
       check_scan c prior keys nfs b o && match alts with [] => true | _ => false end
+  | Upd nfs txs after =>
+      forallb (fun p => nfl_eqb (tracked p after) (spec_tracked_after p nfs txs)) pools
   end.
 
 (** Known-finding classes: server-supplied fields whose malformation still panics the scanner
@@ -100,6 +110,7 @@ Definition known_class (x : case) : N :=
               end then 2
       else if existsb (fun t => negb (flen (x_txid t) =? 32)) (b_vtx b) then 3
       else 0
+  | Upd _ _ _ => 0
   end.
 
 (** Path tag: outcome kind (and pool), where the start sizes came from, and what was found. *)
@@ -129,4 +140,7 @@ Definition tag_case (x : case) : N :=
                    + (if existsb (fun w => existsb w_change (wt_so w ++ wt_oo w ++ wt_io w)) (s_txs r) then 40 else 0)
          | _ => 0
          end)
+  | Upd nfs txs after =>
+      5000 + (if existsb (fun p => negb (match spent_nfs p txs with [] => true | _ => false end)) pools then 1 else 0)
+           + (if existsb (fun p => negb (match recv_nfs p txs with [] => true | _ => false end)) pools then 2 else 0)
   end.
